@@ -28,6 +28,7 @@ from .state import (
     PyVal,
     Res,
     State,
+    StarSeq,
     SuperVal,
     UnderConstruction,
 )
@@ -136,6 +137,10 @@ class Executor:
             if isinstance(n, ast.Starred):
                 def step(acc, s, n=n):
                     def spread(v, s2):
+                        if isinstance(v, SV) and isinstance(v.td, TSeqT):
+                            return self.ok(acc + [StarSeq(v)], s2)
+                        if isinstance(v, SV) and v.td == TFlat:
+                            return self.ok(acc + [StarSeq(SV(TSeqT(TRefT(None)), Flat.flat_val(v.z)))], s2)
                         return self.ok(acc + self.unpack_iterable(v, s2, n), s2)
                     return self.bind(self.ev(n.value, s), spread)
             else:
@@ -148,6 +153,25 @@ class Executor:
         if isinstance(v, (PyTuple, PyList)):
             return list(v.items)
         raise OutsideSubset(f"cannot unpack a symbolic-length iterable {v!r}", node)
+
+    def type_facts(self, z: z3.ExprRef, td: smt.TD, st: State) -> list[z3.BoolRef]:
+        """Typing facts plus the object invariants of every class the value may have."""
+        facts = list(self.types.typing_fact(z, td))
+        if isinstance(td, TRefT) and td.cls is not None and self.reg.object_invariants:
+            key = (z.get_id(), "inv")
+            done = st.ghost.get("invdone", frozenset())
+            if key in done:
+                return facts
+            st.ghost["invdone"] = done | {key}
+            for c in self.types.concrete_subclasses(td.cls):
+                clauses = [cl for a in c.mro for cl in self.reg.object_invariants.get(a.name, [])]
+                if not clauses:
+                    continue
+                obj = SV(TRefT(c), z)
+                ctx = Ctx(self, {"self": obj}, "assume", st)
+                body = [smt.lift(cl.fn(ctx, obj)).z for cl in clauses]
+                facts.append(z3.Implies(smt.typ(z) == self.types.cid(c), z3.And(*body)))
+        return facts
 
     # ------------------------------------------------------------ truthiness
     def truth(self, v: Any, st: State, node: ast.AST | None = None) -> z3.BoolRef:
@@ -208,7 +232,7 @@ class Executor:
         else:
             z = self.types.attr_symbol(ci, attr, td)(obj.z)
         v = SV(td, z)
-        st.assume(*self.types.typing_fact(z, td))
+        st.assume(*self.type_facts(z, td, st))
         if isinstance(td, TRefT):
             st.assume(smt.born(z) <= smt.born(obj.z))
         own = st.owned.get(obj.z.get_id())
@@ -247,8 +271,8 @@ class Executor:
 
     def getattr_val(self, obj: Any, attr: str, st: State, node: ast.AST) -> list[Res]:
         if isinstance(obj, UnderConstruction):
-            if attr in obj.pending:
-                return self.ok(obj.pending[attr], st)
+            if attr in obj.pending(st):
+                return self.ok(obj.pending(st)[attr], st)
             decl = self.types.attr_decl(obj.cls, attr)
             if decl is None:
                 raise OutsideSubset(f"attribute {attr} of object under construction", node)
@@ -368,7 +392,7 @@ class Executor:
             kind, owner, decl = d
             ac = None
             if kind == "property":
-                k = self.reg.get(decl.qualname)
+                k = self.find_contract(decl, None)
                 if k is not None and k.attr:
                     ac = "attr"
             gk = ("sym", attr) if (kind == "field" or ac == "attr") else (kind, owner.qname)
@@ -406,6 +430,8 @@ class Executor:
                     td = self.types.td_of_annotation(decl.node.returns, owner.module)
                 v = self.read_field(obj, c0, attr, td, s2, heap)
                 k = self.attr_contract(c0, attr)
+                if k is None and kind == "property":
+                    k = self.find_contract(decl, None)
                 if k is not None:
                     ctx = Ctx(self, {"self": obj}, "assume", s2)
                     ctx.result = v
@@ -739,7 +765,7 @@ class Executor:
         td = s.td
         assert isinstance(td, TSeqT)
         z = td.info.at(s.z, i)
-        st.assume(*self.types.typing_fact(z, td.elem))
+        st.assume(*self.type_facts(z, td.elem, st))
         return SV(td.elem, z)
 
     # --- comparisons
@@ -1040,6 +1066,12 @@ class Executor:
     def assign_target(self, target: ast.expr, value: Any, st: State, node: ast.AST) -> list[Res] | None:
         if isinstance(target, ast.Name):
             st.env = dict(st.env)
+            td = st.ghost.get("decl", {}).get((st.depth, target.id))
+            if td is not None and not (isinstance(value, SV) and value.td.sort == td.sort):
+                try:
+                    value = self.to_sv(value, td, st, node)
+                except (TypeError, OutsideSubset):
+                    pass
             st.env[target.id] = value
             return None
         if isinstance(target, (ast.Tuple, ast.List)):
@@ -1085,7 +1117,7 @@ class Executor:
 
     def store_attr(self, obj: Any, attr: str, value: Any, st: State, node: ast.AST, via_setattr: bool = False) -> None:
         if isinstance(obj, UnderConstruction):
-            obj.pending[attr] = value
+            obj.set_pending(st, attr, value)
             return
         if not (isinstance(obj, SV) and isinstance(obj.td, TRefT) and obj.td.cls is not None):
             raise OutsideSubset(f"attribute store on {obj!r}", node)
@@ -1119,6 +1151,14 @@ class Executor:
 
     def to_sv(self, value: Any, td: smt.TD, st: State, node: ast.AST | None = None) -> SV:
         """Convert a python-level value into a symbolic value of the given descriptor."""
+        if td == TFlat:
+            if isinstance(value, SV) and value.td == TFlat:
+                return value
+            if isinstance(value, SV) and value.td == TBool:
+                return SV(TFlat, Flat.flat_false)  # the only boolean flatten_logical_and returns is False
+            seq_td = TSeqT(TRefT(None))
+            sq = value if isinstance(value, SV) else self.to_sv(value, seq_td, st, node)
+            return SV(TFlat, Flat.flat_list(sq.z), getattr(sq, "fresh", False))
         if isinstance(value, SV):
             return smt.coerce_to(value, td)
         if isinstance(value, (PyTuple, PyList)) and isinstance(td, TSeqT):
